@@ -696,5 +696,335 @@ theorem maxCycle_spec (r : Region) (hr : wf r = true) :
       have := (Iv.mem_iff _ _).1 h
       omega
 
+/-! ### union -/
+
+theorem mapM_keys_ok (f : Nat → Except Err (Nat × Iv)) (hf : ∀ q p, f q = .ok p → p.1 = q) :
+    ∀ (l : List Nat) (u : Region), l.Nodup → l.mapM f = .ok u →
+      keys u = l ∧ ∀ q ∈ l, ∃ i, f q = .ok (q, i) ∧ get u q = some i
+  | [], u, _, h => by
+    simp only [List.mapM_nil, pure, Except.pure, Except.ok.injEq] at h
+    subst h; simp [keys]
+  | a :: t, u, hn, h => by
+    simp only [List.nodup_cons] at hn
+    rw [List.mapM_cons] at h
+    cases hfa : f a with
+    | error e => simp [hfa, bind, Except.bind] at h
+    | ok p =>
+      cases ht : t.mapM f with
+      | error e => simp [hfa, ht, bind, Except.bind] at h
+      | ok u' =>
+        simp only [hfa, ht, bind, Except.bind, pure, Except.pure, Except.ok.injEq] at h
+        subst h
+        obtain ⟨hk, hg⟩ := mapM_keys_ok f hf t u' hn.2 ht
+        have hp := hf a p hfa
+        refine ⟨by simp [keys, hp] at hk ⊢; exact hk, ?_⟩
+        intro q hq
+        rcases List.mem_cons.1 hq with rfl | hq
+        · refine ⟨p.2, ?_, ?_⟩
+          · rw [hfa, ← hp]
+          · rw [get_cons]; simp [hp]
+        · obtain ⟨i, h1, h2⟩ := hg q hq
+          refine ⟨i, h1, ?_⟩
+          rw [get_cons, hp]
+          have : ¬ a = q := fun e => hn.1 (e ▸ hq)
+          simp [this, h2]
+
+theorem mapM_err (f : Nat → Except Err (Nat × Iv)) :
+    ∀ (l : List Nat) (e : Err), l.mapM f = .error e → ∃ q ∈ l, f q = .error e
+  | [], e, h => by simp [pure, Except.pure] at h
+  | a :: t, e, h => by
+    rw [List.mapM_cons] at h
+    cases hfa : f a with
+    | error e' =>
+      simp only [hfa, bind, Except.bind, Except.error.injEq] at h
+      subst h; exact ⟨a, by simp, hfa⟩
+    | ok p =>
+      cases ht : t.mapM f with
+      | error e' =>
+        simp only [hfa, ht, bind, Except.bind, Except.error.injEq] at h
+        subst h
+        obtain ⟨q, hq, h1⟩ := mapM_err f t e' ht
+        exact ⟨q, List.mem_cons_of_mem _ hq, h1⟩
+      | ok u' => simp [hfa, ht, bind, Except.bind, pure, Except.pure] at h
+
+def unionF (r s : Region) (q : Nat) : Except Err (Nat × Iv) :=
+  match r.get q, s.get q with
+  | some a, some b => (a.union b).map (fun u => (q, u))
+  | some a, none => .ok (q, a)
+  | none, some b => .ok (q, b)
+  | none, none => .error .key
+
+theorem unionF_fst (r s : Region) (q : Nat) (p : Nat × Iv) (h : unionF r s q = .ok p) : p.1 = q := by
+  unfold unionF at h
+  split at h
+  · rename_i a b _ _
+    cases hu : a.union b with
+    | error e => simp [hu, Except.map] at h
+    | ok u => simp only [hu, Except.map, Except.ok.injEq] at h; subst h; rfl
+  · cases h; rfl
+  · cases h; rfl
+  · cases h
+
+theorem hasKey_iff (r : Region) (q : Nat) : hasKey r q = true ↔ q ∈ keys r := get_isSome_iff r q
+
+theorem mem_allKeys (r s : Region) (q : Nat) : q ∈ allKeys r s ↔ q ∈ keys r ∨ q ∈ keys s := by
+  simp only [allKeys, mem_sortN, List.mem_append, List.mem_filter, Bool.not_eq_true']
+  constructor
+  · rintro (h | ⟨h, _⟩)
+    · exact Or.inl h
+    · exact Or.inr h
+  · rintro (h | h)
+    · exact Or.inl h
+    · by_cases hr : q ∈ keys r
+      · exact Or.inl hr
+      · refine Or.inr ⟨h, ?_⟩
+        cases hk : hasKey r q with
+        | false => rfl
+        | true => exact absurd ((hasKey_iff r q).1 hk) hr
+
+theorem nodup_allKeys (r s : Region) (hr : wf r = true) (hs : wf s = true) : (allKeys r s).Nodup := by
+  unfold allKeys
+  rw [nodup_sortN, List.nodup_append]
+  refine ⟨nodup_of_wf r hr, (nodup_of_wf s hs).filter _, ?_⟩
+  intro a ha b hb hab
+  subst hab
+  simp only [List.mem_filter, Bool.not_eq_true'] at hb
+  have := (hasKey_iff r a).2 ha
+  rw [this] at hb
+  exact absurd hb.2 (by simp)
+
+/-- `r.union(s)`: when it returns, the result is a well-formed region whose cells are the cells of
+    either; when it raises, it raises ValueError and some shared qudit carries two intervals that
+    neither overlap nor touch (so the per-qudit union is not an interval). -/
+theorem union_spec (r s : Region) (hr : wf r = true) (hs : wf s = true) :
+    (∀ u, union r s = .ok u →
+        wf u = true ∧ ∀ c q, hasPt u c q = true ↔ (hasPt r c q = true ∨ hasPt s c q = true))
+    ∧ (∀ e, union r s = .error e →
+        e = .value ∧ ∃ q a b, get r q = some a ∧ get s q = some b ∧ a.union b = .error .value) := by
+  have hun : union r s = (allKeys r s).mapM (unionF r s) := by
+    unfold union unionF; rfl
+  have hn := nodup_allKeys r s hr hs
+  constructor
+  · intro u hu
+    rw [hun] at hu
+    obtain ⟨hk, hg⟩ := mapM_keys_ok (unionF r s) (unionF_fst r s) _ u hn hu
+    have hget : ∀ q i, get u q = some i → unionF r s q = .ok (q, i) := by
+      intro q i hq
+      have hq' : q ∈ allKeys r s := by
+        rw [← hk, ← get_isSome_iff]; simp [hq]
+      obtain ⟨i', h1, h2⟩ := hg q hq'
+      rw [hq] at h2; cases h2; exact h1
+    constructor
+    · simp only [wf, Bool.and_eq_true, decide_eq_true_eq, List.all_eq_true]
+      refine ⟨hk ▸ hn, ?_⟩
+      intro p hp
+      have hgp := get_of_mem u p.1 p.2 (hk ▸ hn) hp
+      have := hget p.1 p.2 hgp
+      unfold unionF at this
+      split at this
+      · rename_i a b ha hb
+        cases hu' : a.union b with
+        | error e => simp [hu', Except.map] at this
+        | ok w =>
+          simp only [hu', Except.map, Except.ok.injEq, Prod.mk.injEq, true_and] at this
+          rw [← this]
+          exact (Iv.union_ok a b w (valid_of_get r hr _ a ha) (valid_of_get s hs _ b hb) hu').1
+      · rename_i a ha _
+        simp only [Except.ok.injEq, Prod.mk.injEq, true_and] at this
+        rw [← this]; exact valid_of_get r hr _ a ha
+      · rename_i b _ hb
+        simp only [Except.ok.injEq, Prod.mk.injEq, true_and] at this
+        rw [← this]; exact valid_of_get s hs _ b hb
+      · cases this
+    · intro c q
+      by_cases hq : q ∈ allKeys r s
+      · obtain ⟨i, h1, h2⟩ := hg q hq
+        simp only [hasPt, h2]
+        unfold unionF at h1
+        cases ha : r.get q with
+        | none =>
+          cases hb : s.get q with
+          | none => simp [ha, hb] at h1
+          | some b =>
+            simp only [ha, hb, Except.ok.injEq, Prod.mk.injEq, true_and] at h1
+            subst h1; simp
+        | some a =>
+          cases hb : s.get q with
+          | none =>
+            simp only [ha, hb, Except.ok.injEq, Prod.mk.injEq, true_and] at h1
+            subst h1; simp
+          | some b =>
+            simp only [ha, hb] at h1
+            cases hu' : a.union b with
+            | error e => simp [hu', Except.map] at h1
+            | ok w =>
+              simp only [hu', Except.map, Except.ok.injEq, Prod.mk.injEq, true_and] at h1
+              subst h1
+              exact (Iv.union_ok a b w (valid_of_get r hr _ a ha) (valid_of_get s hs _ b hb) hu').2 c
+      · have h0 : get u q = none := by
+          cases hgq : get u q with
+          | none => rfl
+          | some i =>
+            exfalso; apply hq
+            rw [← hk, ← get_isSome_iff]; simp [hgq]
+        have hr0 : r.get q = none := by
+          cases hgq : r.get q with
+          | none => rfl
+          | some i =>
+            exfalso; apply hq
+            rw [mem_allKeys]; left; rw [← get_isSome_iff]; simp [hgq]
+        have hs0 : s.get q = none := by
+          cases hgq : s.get q with
+          | none => rfl
+          | some i =>
+            exfalso; apply hq
+            rw [mem_allKeys]; right; rw [← get_isSome_iff]; simp [hgq]
+        simp [hasPt, h0, hr0, hs0]
+  · intro e he
+    rw [hun] at he
+    obtain ⟨q, hq, h1⟩ := mapM_err (unionF r s) _ e he
+    unfold unionF at h1
+    cases ha : r.get q with
+    | none =>
+      cases hb : s.get q with
+      | none =>
+        exfalso
+        rcases (mem_allKeys r s q).1 hq with h | h
+        · rw [← get_isSome_iff] at h; simp [ha] at h
+        · rw [← get_isSome_iff] at h; simp [hb] at h
+      | some b => simp [ha, hb] at h1
+    | some a =>
+      cases hb : s.get q with
+      | none => simp [ha, hb] at h1
+      | some b =>
+        simp only [ha, hb] at h1
+        cases hu' : a.union b with
+        | ok w => simp [hu', Except.map] at h1
+        | error e' =>
+          simp only [hu', Except.map, Except.error.injEq] at h1
+          subst h1
+          have : e' = .value := by
+            unfold Iv.union at hu'
+            split at hu'
+            · cases hu'; rfl
+            · cases hu'
+          subst this
+          exact ⟨rfl, q, a, b, ha, hb, hu'⟩
+
+/-! ### equality -/
+
+/-- `r == s` (equality of the sorted item lists) is equality as mappings -/
+theorem eqv_iff (r s : Region) (hr : wf r = true) (hs : wf s = true) :
+    eqv r s = true ↔ ∀ q, get r q = get s q := by
+  unfold eqv
+  rw [beq_iff_eq]
+  constructor
+  · intro h q
+    have hk : location r = location s := by
+      have := congrArg (List.map Prod.fst) h
+      simpa [List.map_map, Function.comp_def] using this
+    by_cases hq : q ∈ location r
+    · have h1 : (q, get r q) ∈ (location r).map (fun q => (q, r.get q)) :=
+        List.mem_map.2 ⟨q, hq, rfl⟩
+      rw [h] at h1
+      obtain ⟨q', _, h2⟩ := List.mem_map.1 h1
+      simp only [Prod.mk.injEq] at h2
+      rw [← h2.2, h2.1]
+    · have hq2 : q ∉ location s := hk ▸ hq
+      simp only [location, mem_sortN, ← get_isSome_iff] at hq hq2
+      cases h1 : r.get q <;> cases h2 : s.get q <;> simp_all
+  · intro h
+    have hk : location r = location s := by
+      unfold location
+      apply sortN_of_perm
+      rw [List.perm_ext_iff_of_nodup (nodup_of_wf r hr) (nodup_of_wf s hs)]
+      intro q
+      rw [← get_isSome_iff, ← get_isSome_iff, h q]
+    rw [hk]
+    apply List.map_congr_left
+    intro q _
+    rw [h q]
+
+/-! ### the order `<` on regions that share qudits -/
+
+def fShared (r s : Region) (q : Nat) : Bool :=
+  match r.get q, s.get q with
+  | some a, some b => a.lt b
+  | _, _ => false
+
+theorem ltRegion_cons (r s : Region) (q0 : Nat) (rest : List Nat) (hc : common r s = q0 :: rest) :
+    ltRegion r s = if rest.all (fun q => fShared r s q == fShared r s q0) then .ok (fShared r s q0)
+      else .error .value := by
+  unfold ltRegion fShared
+  simp only [hc]
+  rfl
+
+theorem ltRegion_shared (r s : Region) (hne : common r s ≠ []) :
+    (ltRegion r s = .ok true ↔ ∀ q ∈ common r s, fShared r s q = true)
+    ∧ (ltRegion r s = .ok false ↔ ∀ q ∈ common r s, fShared r s q = false)
+    ∧ (ltRegion r s = .error .value ↔
+        ∃ q ∈ common r s, ∃ q' ∈ common r s, fShared r s q ≠ fShared r s q') := by
+  cases hc : common r s with
+  | nil => exact absurd hc hne
+  | cons q0 rest =>
+    rw [ltRegion_cons r s q0 rest hc]
+    by_cases hall : rest.all (fun q => fShared r s q == fShared r s q0) = true
+    · simp only [hall, if_true, Except.ok.injEq, reduceCtorEq, false_iff, not_exists, not_and,
+        List.mem_cons, forall_eq_or_imp, ne_eq, Decidable.not_not]
+      simp only [List.all_eq_true, beq_iff_eq] at hall
+      refine ⟨⟨fun h => ⟨h, fun q hq => (hall q hq).trans h⟩, fun h => h.1⟩,
+        ⟨fun h => ⟨h, fun q hq => (hall q hq).trans h⟩, fun h => h.1⟩, ?_⟩
+      exact ⟨⟨trivial, fun a ha => (hall a ha).symm⟩,
+        fun a ha => ⟨hall a ha, fun b hb => (hall a ha).trans (hall b hb).symm⟩⟩
+    · simp only [hall, Bool.false_eq_true, if_false, reduceCtorEq, false_iff, true_iff]
+      simp only [Bool.not_eq_true, List.all_eq_false, beq_iff_eq] at hall
+      obtain ⟨q, hq, hne'⟩ := hall
+      refine ⟨?_, ?_, ⟨q, List.mem_cons_of_mem _ hq, q0, by simp, hne'⟩⟩
+      · intro h
+        exact hne' ((h q (List.mem_cons_of_mem _ hq)).trans (h q0 (by simp)).symm)
+      · intro h
+        exact hne' ((h q (List.mem_cons_of_mem _ hq)).trans (h q0 (by simp)).symm)
+
+theorem dependsOn_eq_all (r s : Region) :
+    dependsOn s r = true ↔ common r s ≠ [] ∧ ∀ q ∈ common r s, fShared r s q = true := by
+  unfold dependsOn
+  simp only
+  have hiff : ∀ q, q ∈ common s r ↔ q ∈ common r s := fun q => common_comm_mem s r q
+  constructor
+  · intro h
+    split at h; · cases h
+    rename_i hne
+    simp only [List.all_eq_true] at h
+    constructor
+    · intro he
+      rw [common_ne_nil_comm, he] at hne
+      simp at hne
+    · intro q hq
+      have := h q ((hiff q).2 hq)
+      unfold fShared
+      cases ha : r.get q <;> cases hb : s.get q <;> simp_all
+  · rintro ⟨hne, h⟩
+    have hne' : (common s r).isEmpty = false := by
+      rw [common_ne_nil_comm]
+      cases hc : common r s with
+      | nil => exact absurd hc hne
+      | cons _ _ => rfl
+    simp only [hne', Bool.false_eq_true, if_false, List.all_eq_true]
+    intro q hq
+    have := h q ((hiff q).1 hq)
+    unfold fShared at this
+    cases ha : r.get q <;> cases hb : s.get q <;> simp_all
+
+/-- on regions that share a qudit, `r < s` is `True` exactly when `s.depends_on(r)`, and raises
+    exactly when two shared qudits disagree about the order -/
+theorem ltRegion_dependsOn (r s : Region) (hne : common r s ≠ []) :
+    (ltRegion r s = .ok true ↔ dependsOn s r = true)
+    ∧ (ltRegion r s = .error .value ↔
+        ∃ q ∈ common r s, ∃ q' ∈ common r s, fShared r s q ≠ fShared r s q') := by
+  obtain ⟨h1, _, h3⟩ := ltRegion_shared r s hne
+  refine ⟨?_, h3⟩
+  rw [h1, dependsOn_eq_all]
+  exact ⟨fun h => ⟨hne, h⟩, fun h => h.2⟩
+
 end Region
 end BqVerif.Region
